@@ -133,6 +133,17 @@ def run_check(prop: str, tier: str = "quick", seed: int = 0, replay: str | None 
             cases += rc
             log(f"[{prop}] random cases: {len(rc)}")
 
+    # ---- unbounded laws: TLAPS proof obligations (thorough tier), a failed obligation is a machinery failure
+    proof_stats = {"obligations": 0, "discharged": 0, "modules": []}
+    if tier == "thorough" and not replay:
+        for pm in getattr(chk, "PROOFS", []):
+            ob, ok, out = run_tlapm(pm, work)
+            log(f"[{prop}] tlapm {pm}: {ok}/{ob} obligations proved")
+            if ob == 0 or ok != ob:
+                raise Machinery(f"tlapm could not discharge {pm}: {ok}/{ob}\n{out[-1500:]}")
+            proof_stats["obligations"] += ob; proof_stats["discharged"] += ok; proof_stats["modules"].append(pm)
+    enum_stats["proofs"] = proof_stats
+
     # ---- (2) EXECUTE: the binder runs the real code; it does not judge
     if hasattr(chk, "prepare"):
         chk.prepare(work, tier, seed)
@@ -215,6 +226,27 @@ def run_check(prop: str, tier: str = "quick", seed: int = 0, replay: str | None 
     return 1 if nviol else 0
 
 
+def run_tlapm(module_path: str, work: Path):
+    """Discharge the proof obligations of spec/<module_path> with tlapm (SMT/Zenon back ends); returns (obligations, proved, output)."""
+    import re, subprocess
+    src = tlc.SPEC / module_path
+    d = work / "proofs"
+    d.mkdir(parents=True, exist_ok=True)
+    shutil.copy(src, d / src.name)
+    try:
+        p = subprocess.run(["tlapm", "--cleanfp", "--toolbox", "0", "0", src.name], cwd=str(d), capture_output=True, text=True, timeout=900)
+        out = p.stdout + p.stderr
+    except Exception as ex:
+        return 0, 0, str(ex)
+    m = re.search(r"All (\d+) obligations? proved", out)
+    if m:
+        return int(m.group(1)), int(m.group(1)), out
+    m = re.search(r"(\d+)/(\d+) obligations? failed", out)
+    if m:
+        return int(m.group(2)), int(m.group(2)) - int(m.group(1)), out
+    return 0, 0, out
+
+
 def validate(chk, obs, work: Path, log) -> list[tuple[int, list[str]]]:
     """Batch-validate observations with TLC.  Returns [(obs id, [failing clauses])]."""
     groups: dict[str, list] = {}
@@ -294,6 +326,9 @@ def write_evidence(chk, prop, tier, seed, obs, enum_stats, nviol, known_hits, wa
         "known_finding_hits": known_hits,
         "model_drift": drift or {},
     }
+    pr = enum_stats.get("proofs") or {}
+    if pr.get("obligations"):
+        cov["obligations"] = pr["obligations"]; cov["discharged"] = pr["discharged"]; cov["proof_modules"] = pr["modules"]
     if hasattr(chk, "evidence_extra"):
         cov.update(chk.evidence_extra())
     ev = {"property_id": prop, "tier": tier, "seed": int(seed), "level": "model_checking",
